@@ -55,12 +55,32 @@ func (l *Loader) LoadRaw(name string) (*RawConfig, error) {
 
 // Load loads a target configuration with inheritance resolved
 func (l *Loader) Load(name string) (*Config, error) {
+	return l.load(name, nil)
+}
+
+// inheritChain is the chain of targets whose inheritance is being resolved,
+// innermost first.
+type inheritChain struct {
+	name  string
+	outer *inheritChain
+}
+
+// load resolves one target; a target that is reached again while it is still
+// being resolved inherits from itself, which is an error (it used to recurse
+// until the stack overflowed).
+func (l *Loader) load(name string, chain *inheritChain) (*Config, error) {
+	for c := chain; c != nil; c = c.outer {
+		if c.name == name {
+			return nil, fmt.Errorf("inheritance cycle: target %s inherits from itself", name)
+		}
+	}
+
 	raw, err := l.LoadRaw(name)
 	if err != nil {
 		return nil, err
 	}
 
-	return l.resolveInheritance(raw)
+	return l.resolveInheritance(raw, &inheritChain{name: name, outer: chain})
 }
 
 // LoadAll loads all target configurations in the targets directory
@@ -90,7 +110,7 @@ func (l *Loader) LoadAll() (map[string]*Config, error) {
 }
 
 // resolveInheritance resolves inheritance chain for a configuration
-func (l *Loader) resolveInheritance(raw *RawConfig) (*Config, error) {
+func (l *Loader) resolveInheritance(raw *RawConfig, chain *inheritChain) (*Config, error) {
 	if !raw.HasInheritance() {
 		// No inheritance, return as-is
 		return &raw.Config, nil
@@ -101,7 +121,7 @@ func (l *Loader) resolveInheritance(raw *RawConfig) (*Config, error) {
 
 	// Apply inheritance in order
 	for _, parentName := range raw.GetInherits() {
-		parent, err := l.Load(parentName)
+		parent, err := l.load(parentName, chain)
 		if err != nil {
 			return nil, fmt.Errorf("failed to load parent config %s: %w", parentName, err)
 		}
